@@ -1,6 +1,7 @@
 import PbVerif.Model.Desc
 /- Helper lemmas for the descriptor model: the verdict combinators, membership in the built tree. -/
 namespace Desc
+open Gen.EditionDefaults
 
 @[simp] theorem seq_ok_iff (a b : V) : seq a b = .ok () ↔ a = .ok () ∧ b = .ok () := by
   cases a with
@@ -87,5 +88,153 @@ theorem validateMsgs_of_mem (v : VCtx) (ms : MessageDList) (h : validateMsgs v m
     · exact validateMsg_of_mem v m h.1 x hx
     · exact validateMsgs_of_mem v rest h.2 x hx
 end
+
+/-! ### references -/
+
+theorem splitDots_ne_nil (s : Str) : splitDots s ≠ [] := by
+  cases s with
+  | nil => simp [splitDots]
+  | cons c r =>
+    simp only [splitDots]
+    split
+    · simp
+    · split <;> simp
+
+theorem not_unknownPrefix_of_valid (full : Str) (h : isValidFullName full = true) :
+    unknownPrefix.isPrefixOf full = false := by
+  cases full with
+  | nil => rfl
+  | cons a r1 =>
+    cases r1 with
+    | nil => simp [unknownPrefix, List.isPrefixOf]
+    | cons b rest =>
+      by_cases ha : a = 42
+      · by_cases hb : b = 46
+        · subst ha; subst hb
+          exfalso
+          simp only [isValidFullName, splitDots] at h
+          cases hs : splitDots rest with
+          | nil => exact splitDots_ne_nil rest hs
+          | cons x xs =>
+            simp [hs, isValidName, isLetter] at h
+        · simp [unknownPrefix, List.isPrefixOf]; intro _ h46; exact hb h46.symm
+      · simp [unknownPrefix, List.isPrefixOf]; intro h42; exact absurd h42.symm ha
+
+/-- what `findDescriptor` finds for a reference is named by that reference -/
+theorem findDescriptor_found (c : Ctx) (ref : Str) (t : TargetRef) (h : findDescriptor c ref = .found t) :
+    ∃ full, ref = 46 :: full ∧ t.fullName = full ∧ isValidFullName full = true ∧ t.placeholder = false := by
+  unfold findDescriptor at h
+  split at h
+  · rename_i full
+    split at h
+    · cases h
+    · rename_i hv
+      simp only [Bool.not_eq_true, Bool.not_eq_false'] at hv
+      split at h
+      · injection h with h; subst h; exact ⟨full, rfl, rfl, hv, rfl⟩
+      · split at h
+        · split at h
+          · injection h with h; subst h; exact ⟨full, rfl, rfl, hv, rfl⟩
+          · cases h
+        · cases h
+  · split at h <;> cases h
+
+theorem findDescriptor_notFound (c : Ctx) (ref : Str) (h : findDescriptor c ref = .notFound) :
+    ∃ full, ref = 46 :: full ∧ isValidFullName full = true := by
+  unfold findDescriptor at h
+  split at h
+  · rename_i full
+    split at h
+    · cases h
+    · rename_i hv
+      simp only [Bool.not_eq_true, Bool.not_eq_false'] at hv
+      exact ⟨full, rfl, hv⟩
+  · split at h <;> cases h
+
+theorem findTyped_ok (c : Ctx) (w : Want) (ref : Str) (t : TargetRef) (h : findTyped c w ref = .ok t) :
+    fullNameOf t = ref := by
+  unfold findTyped at h
+  split at h
+  · cases h
+  · cases h
+  · rename_i hnf
+    obtain ⟨full, rfl, hv⟩ := findDescriptor_notFound c ref hnf
+    split at h
+    · injection h with h; subst h
+      simp [fullNameOf, refFullName, not_unknownPrefix_of_valid full hv]
+    · cases h
+  · rename_i t' hf
+    obtain ⟨full, rfl, hfn, hv, _⟩ := findDescriptor_found c ref t' hf
+    split at h
+    · injection h with h; subst h; simp [fullNameOf, hfn, not_unknownPrefix_of_valid full hv]
+    · injection h with h; subst h; simp [fullNameOf, hfn, not_unknownPrefix_of_valid full hv]
+    · cases h
+
+theorem resolveErr_none_split (c : Ctx) (par : GoFeatures) (scope : Str) (me : Bool) (n i : Nat) (p : FieldP)
+    (h : (buildField c par scope me n i p).resolveErr = none) :
+    (∀ k, p.oneofIndex = some k → 0 ≤ k ∧ k < (n : Int)) ∧
+    (∃ t, findTarget c (if (p.type == kMessage && (fieldFeatures par p.features p.packed).isDelimitedEncoded) then kGroup else p.type) (p.typeName.getD []) = .ok t) := by
+  simp only [buildField] at h
+  constructor
+  · intro k hk
+    rw [hk] at h
+    simp only at h
+    by_cases hb : 0 ≤ k ∧ k < (n : Int)
+    · exact hb
+    · exfalso
+      have : (decide (0 ≤ k) && decide (k < (n:Int))) = false := by
+        simp only [Bool.and_eq_false_iff, decide_eq_false_iff_not]
+        by_cases h0 : 0 ≤ k
+        · right; intro h1; exact hb ⟨h0, h1⟩
+        · left; exact h0
+      simp [this, Option.orElse] at h
+  · generalize (if (p.type == kMessage && (fieldFeatures par p.features p.packed).isDelimitedEncoded) = true then kGroup else p.type) = k0 at h ⊢
+    cases hft : findTarget c k0 (p.typeName.getD []) with
+    | ok t => exact ⟨t, rfl⟩
+    | error e =>
+      exfalso
+      simp only [hft] at h
+      cases ho : p.oneofIndex with
+      | none => simp [ho, Option.orElse] at h
+      | some k =>
+        simp only [ho] at h
+        split at h <;> simp [Option.orElse] at h
+
+theorem findTarget_ok (c : Ctx) (k : Nat) (ref : Str) (t : Target) (h : findTarget c k ref = .ok t) (hk : k ≠ 0) :
+    t.kind = k ∧
+    (if k = kEnum then (∃ r, t.enumT = some r ∧ fullNameOf r = ref) ∧ t.messageT = none
+     else if k = kMessage ∨ k = kGroup then (∃ r, t.messageT = some r ∧ fullNameOf r = ref) ∧ t.enumT = none
+     else t.enumT = none ∧ t.messageT = none ∧ ref = []) := by
+  unfold findTarget at h
+  split at h
+  · rename_i he
+    simp only [beq_iff_eq] at he
+    cases hf : findTyped c .enum ref with
+    | error e => simp [hf, Except.map] at h
+    | ok r =>
+      simp [hf, Except.map] at h; subst h
+      simp [he, findTyped_ok c .enum ref r hf]
+  · rename_i hne
+    simp only [beq_iff_eq] at hne
+    split at h
+    · rename_i hm
+      simp only [Bool.or_eq_true, beq_iff_eq] at hm
+      cases hf : findTyped c .msg ref with
+      | error e => simp [hf, Except.map] at h
+      | ok r =>
+        simp [hf, Except.map] at h; subst h
+        simp [hne, hm, findTyped_ok c .msg ref r hf]
+    · rename_i hnm
+      simp only [Bool.or_eq_true, beq_iff_eq, not_or] at hnm
+      split at h
+      · rename_i h0; simp only [beq_iff_eq] at h0; exact absurd h0 hk
+      · split at h
+        · cases h
+        · split at h
+          · cases h
+          · injection h with h; subst h
+            rename_i hre _
+            simp only [Bool.not_eq_true, Bool.not_eq_false', List.isEmpty_iff] at hre
+            simp [hne, hnm.1, hnm.2, hre]
 
 end Desc
